@@ -531,11 +531,13 @@ def check(repo, run, tier):
     g(unitrules.tag_spec, repo, run, 'C01.R2', ['!null'])
     g(unitrules.make_node_table, repo, run, 'C01.R1c')
     g(unitrules.metadata_syntax_table, repo, run, 'C01.R7')
+    g(unitrules.parse_errors, repo, run, 'C01.R6')
     g.done()
 
 
 def mutants(repo):
     return [
+        Mutant('parsing-error-without-node', lambda r: in_func(r, 'yaml.parse', "raise errors.ParsingError(str(e), node=None, path=None) from e", "raise errors.ParsingError(str(e), path=None) from e"), ['C01.R6']),
         Mutant('metadata-end-not-found', lambda r: in_func(r, 'yaml._get_metadata_end', "        if end == -1:", "        if end != -1:"), ['C01.R7']),
         Mutant('mapping-arguments-dropped', lambda r: in_func(r, 'yaml._make_node', "        kwargs.update(data)\n", ""), ['C01.R1c']),
         Mutant('namespace-members-stay-on-class', lambda r: in_func(r, 'NamespaceableMeta.__init__', "                    delattr(cls, name)\n", "                    pass\n"), ['C01.R10']),
